@@ -1,33 +1,38 @@
 (* C17 — the FULL statement (every history over non-None values, every fault placement) is
-   false of the faithful model.  Three independent witnesses, each computed by vm_compute and
-   each replayed on the real code by harness/props/c17.py (WITNESSES):
-     falsy        an empty (falsy) database config is transmitted but, because of the
-                  `database_config or worker_db.database_config` merge in sync_worker_state_cb,
-                  not recorded; when the caller returns to the earlier object nothing is sent
-                  and the request is compiled against the empty config;
-     partial sync __sync__ stores the per-database part, then fails on the global schema:
-                  FailedStateSync, the server keeps its old belief, the worker has moved;
-     status 2     the worker compiled and replaced LAST_STATE, the reply could not be
-                  serialised: the server still believes the worker caches the older state and
-                  sends REUSE_LAST_STATE_MARKER for it.
+   false of the faithful model of the pinned code, and two older defects are kept as refuted
+   model variants (they were repaired in /repo by `fix:` commits; the check alarms if the real
+   code reproduces them again).  Each witness is computed by vm_compute and replayed on the real
+   code by harness/props/c17.py (WITNESSES):
+     status 2     [pinned code: run true true]  the worker synced, compiled and replaced
+                  LAST_STATE, the reply could not be serialised (status 2): BaseWorker.call
+                  raises without the callback and AbstractPool.compile does not touch
+                  _last_pickled_state.  The server still believes the worker holds the older
+                  values / caches the older state; it sends nothing / REUSE_LAST_STATE_MARKER
+                  for them.                                   (known finding C17-status2-unacked)
+     falsy        [variant run false true, before commit ab51dc9]  an empty (falsy) database
+                  config is transmitted but, because of the `database_config or
+                  worker_db.database_config` merge in sync_worker_state_cb, not recorded; when the
+                  caller returns to the earlier object nothing is sent.
+     partial sync [variant run true false, before commit 8dbc525]  __sync__ stores the
+                  per-database part, then fails on the global schema: FailedStateSync, the
+                  server keeps its old belief, the worker has moved.
    [fal0]/[cont0] are the concrete truthiness/content functions of the correspondence check. *)
 From Coq Require Import List NArith Bool.
 From Verif.C17 Require Import Model Proofs.
 Import ListNotations.
 Local Open Scope N_scope.
 
-Definition args_exact_at (fal : N -> bool) (cont : N -> N) (h : list op) : Prop :=
+Definition args_exact_at (fx1 fx2 : bool) (fal : N -> bool) (cont : N -> N) (h : list op) : Prop :=
   forall w m db us gs rc dc sc f x a b c d e re,
-  In (OCompile w m db us gs rc dc sc f, OutC x (ObsC a b c d e) re) (run fal cont sys0 h) ->
+  In (OCompile w m db us gs rc dc sc f, OutC x (ObsC a b c d e) re) (run fx1 fx2 fal cont sys0 h) ->
   a = cont us /\ b = cont gs /\ c = cont rc /\ d = cont dc /\ e = cont sc.
 
-Definition tx_exact_at (fal : N -> bool) (cont : N -> N) (h : list op) : Prop :=
+Definition tx_exact_at (fx1 fx2 : bool) (fal : N -> bool) (cont : N -> N) (h : list op) : Prop :=
   forall avail db us ps f w reuse sid root re,
-  In (OTx avail db us ps f, OutT w reuse (ObsT sid root) re) (run fal cont sys0 h) ->
+  In (OTx avail db us ps f, OutT w reuse (ObsT sid root) re) (run fx1 fx2 fal cont sys0 h) ->
   sid = ps /\ (reuse = false -> root = cont us).
 
 (* no request supplies None *)
-Definition nn (x : N) : bool := negb (is_none x).
 Definition nn_op (o : op) : bool :=
   match o with
   | OCompile w m db us gs rc dc sc f => nn us && nn gs && nn rc && nn dc && nn sc
@@ -48,11 +53,60 @@ Definition all_truthy (fal : N -> bool) (o : op) : bool :=
   | ORestart w dbs gs sc => true
   end.
 
-(* the full statement of the property over the model *)
+(* the full statement of the property over the model of the pinned code *)
 Definition C17_full : Prop :=
   forall fal cont h, forallb nn_op h = true ->
-    args_exact_at fal cont h /\ tx_exact_at fal cont h /\
-    (forall w b r, find w (ws (final fal cont sys0 h)) = Some (b, r) -> in_sync cont b r).
+    args_exact_at true true fal cont h /\ tx_exact_at true true fal cont h /\
+    (forall w b r, find w (ws (final true true fal cont sys0 h)) = Some (b, r) -> in_sync cont b r).
+
+(* ---- pinned code: status-2 replies ---- *)
+
+Definition wit_status2 : list op :=
+  [ORestart 1 [(1, mkP 2 8 10)] 4 6;
+   OCompile 1 (MCompile true) 1 2 4 8 10 6 FNone;         (* returns state 2: cached by worker 1 *)
+   OCompile 1 (MCompile true) 1 2 4 8 10 6 FReplyLost;    (* worker now caches state 3; reply unusable *)
+   OTx [1] 1 2 2 FNone].                                  (* state 2 supplied: marker sent, state 3 used *)
+
+Theorem C17_status2_refuted : exists h,
+  forallb nn_op h = true /\ forallb (all_truthy fal0) h = true /\
+  ~ tx_exact_at true true fal0 cont0 h.
+Proof.
+  exists wit_status2. split; [reflexivity|]. split; [reflexivity|]. intro H.
+  specialize (H [1] 1 2 2 FNone 1 true 3 1 (ROk 4)).
+  assert (X : 3 = 2) by (apply H; vm_compute; auto).
+  discriminate X.
+Qed.
+
+Definition wit_status2_args : list op :=
+  [ORestart 1 [(1, mkP 2 8 10)] 4 6;
+   OCompile 1 MOther 1 2 4 8 20 6 FReplyLost;    (* new database config stored by the worker, reply unusable *)
+   OCompile 1 MOther 1 2 4 8 10 6 FNone].        (* the earlier object: nothing is sent *)
+
+Theorem C17_status2_args_refuted : exists h,
+  forallb (all_truthy fal0) h = true /\ ~ args_exact_at true true fal0 cont0 h.
+Proof.
+  exists wit_status2_args. split; [reflexivity|]. intro H.
+  specialize (H 1 MOther 1 2 4 8 10 6 FNone (mkWire None None None None None) 1 2 4 10 3 (ROk 0)).
+  assert (X : 10 = cont0 10) by (apply H; vm_compute; auto).
+  vm_compute in X. discriminate X.
+Qed.
+
+Theorem C17_belief_refuted : exists h w b r,
+  forallb (all_truthy fal0) h = true /\
+  find w (ws (final true true fal0 cont0 sys0 h)) = Some (b, r) /\ ~ in_sync cont0 b r.
+Proof.
+  exists [ORestart 1 [(1, mkP 2 8 10)] 4 6; OCompile 1 MOther 1 2 4 8 20 6 FReplyLost].
+  eexists 1, _, _. split; [reflexivity|]. split; [vm_compute; reflexivity|].
+  intros (Hd & _). specialize (Hd 1 (mkP 2 8 10) eq_refl). vm_compute in Hd. discriminate Hd.
+Qed.
+
+Theorem C17_full_refuted : ~ C17_full.
+Proof.
+  intro H. destruct C17_status2_refuted as (h & Hn & _ & Hx).
+  apply Hx. exact (proj1 (proj2 (H fal0 cont0 h Hn))).
+Qed.
+
+(* ---- older variants (repaired in /repo) ---- *)
 
 Definition wit_falsy : list op :=
   [ORestart 1 [(1, mkP 2 8 10)] 4 6;
@@ -60,7 +114,7 @@ Definition wit_falsy : list op :=
    OCompile 1 MOther 1 2 4 8 10 6 FNone].      (* back to object 10: nothing is sent *)
 
 Theorem C17_falsy_refuted : exists h,
-  forallb nn_op h = true /\ forallb no_fault h = true /\ ~ args_exact_at fal0 cont0 h.
+  forallb nn_op h = true /\ forallb no_fault h = true /\ ~ args_exact_at false true fal0 cont0 h.
 Proof.
   exists wit_falsy. split; [reflexivity|]. split; [reflexivity|]. intro H.
   specialize (H 1 MOther 1 2 4 8 10 6 FNone (mkWire None None None None None) 1 2 4 50 3 (ROk 0)).
@@ -74,7 +128,7 @@ Definition wit_partial : list op :=
    OCompile 1 MOther 1 2 4 8 10 6 FNone].            (* the earlier objects: nothing is sent *)
 
 Theorem C17_partial_sync_refuted : exists h,
-  forallb (all_truthy fal0) h = true /\ ~ args_exact_at fal0 cont0 h.
+  forallb (all_truthy fal0) h = true /\ ~ args_exact_at true false fal0 cont0 h.
 Proof.
   exists wit_partial. split; [reflexivity|]. intro H.
   specialize (H 1 MOther 1 2 4 8 10 6 FNone (mkWire None None None None None) 6 2 4 5 3 (ROk 0)).
@@ -82,38 +136,21 @@ Proof.
   vm_compute in X. discriminate X.
 Qed.
 
-Theorem C17_belief_refuted : exists h w b r,
-  forallb (all_truthy fal0) h = true /\
-  find w (ws (final fal0 cont0 sys0 h)) = Some (b, r) /\ ~ in_sync cont0 b r.
-Proof.
-  exists [ORestart 1 [(1, mkP 2 8 10)] 4 6; OCompile 1 MOther 1 12 14 8 10 6 (FUnpickle 2)].
-  eexists 1, _, _. split; [reflexivity|]. split; [vm_compute; reflexivity|].
-  intros (Hd & _). specialize (Hd 1 (mkP 2 8 10) eq_refl). vm_compute in Hd. discriminate Hd.
-Qed.
+(* with both repairs the two older witnesses are exact again *)
+Example C17_repaired_witnesses :
+  map snd (run true true fal0 cont0 sys0 wit_falsy) =
+    [OutR true;
+     OutC (mkWire None None None (Some 100) None) (ObsC 1 2 4 50 3) (ROk 0);
+     OutC (mkWire None None None (Some 10) None) (ObsC 1 2 4 5 3) (ROk 0)] /\
+  map snd (run true true fal0 cont0 sys0 wit_partial) =
+    [OutR true;
+     OutC (mkWire (Some 12) None (Some 14) None None) ObsNone (RErr ESync);
+     OutC (mkWire None None None None None) (ObsC 1 2 4 5 3) (ROk 0)].
+Proof. split; vm_compute; reflexivity. Qed.
 
-Definition wit_status2 : list op :=
-  [ORestart 1 [(1, mkP 2 8 10)] 4 6;
-   OCompile 1 (MCompile true) 1 2 4 8 10 6 FNone;         (* returns state 2: cached by worker 1 *)
-   OCompile 1 (MCompile true) 1 2 4 8 10 6 FReplyLost;    (* worker now caches state 3; reply unusable *)
-   OTx [1] 1 2 2 FNone].                                  (* state 2 supplied: marker sent, state 3 used *)
-
-Theorem C17_status2_refuted : exists h,
-  forallb (all_truthy fal0) h = true /\ ~ tx_exact_at fal0 cont0 h.
-Proof.
-  exists wit_status2. split; [reflexivity|]. intro H.
-  specialize (H [1] 1 2 2 FNone 1 true 3 1 (ROk 4)).
-  assert (X : 3 = 2) by (apply H; vm_compute; auto).
-  discriminate X.
-Qed.
-
-Theorem C17_full_refuted : ~ C17_full.
-Proof.
-  intro H. destruct C17_falsy_refuted as (h & Hn & _ & Hx).
-  apply Hx. exact (proj1 (H fal0 cont0 h Hn)).
-Qed.
-
+Print Assumptions C17_status2_refuted.
+Print Assumptions C17_status2_args_refuted.
+Print Assumptions C17_belief_refuted.
+Print Assumptions C17_full_refuted.
 Print Assumptions C17_falsy_refuted.
 Print Assumptions C17_partial_sync_refuted.
-Print Assumptions C17_belief_refuted.
-Print Assumptions C17_status2_refuted.
-Print Assumptions C17_full_refuted.
